@@ -54,7 +54,45 @@ func (x *Exec) prelude() string {
 	var b strings.Builder
 	b.WriteString(strings.Join(x.C.decls, "\n"))
 	b.WriteString("\n")
+	occurs := func(sym string) bool {
+		pat := "(" + sym + " "
+		for _, o := range x.obls {
+			if strings.Contains(o.Goal, pat) {
+				return true
+			}
+			for _, p := range o.PC {
+				if strings.Contains(p, pat) {
+					return true
+				}
+			}
+			for _, d := range o.Defs {
+				if strings.Contains(d, pat) {
+					return true
+				}
+			}
+		}
+		for _, d := range x.C.decls {
+			if strings.HasPrefix(d, "(define-fun") && strings.Contains(d, pat) {
+				return true
+			}
+		}
+		return false
+	}
 	for _, c := range x.cond {
+		if len(c.syms) == 1 && strings.Contains(c.syms[0], "&") {
+			// "a&b": every symbol has to occur
+			all := true
+			for _, sym := range strings.Split(c.syms[0], "&") {
+				if !occurs(strings.TrimSpace(sym)) {
+					all = false
+				}
+			}
+			if all {
+				b.WriteString(c.text)
+				b.WriteString("\n")
+			}
+			continue
+		}
 		used := false
 		for _, sym := range c.syms {
 			pat := "(" + sym + " "
